@@ -276,10 +276,11 @@ Definition text_decode (e : tenc) (bs : bytes) : res text :=
 Definition stream_take (n : Z) (bs : bytes) : bytes * bytes :=
   if n <? 0 then (bs, []) else (ztake n bs, zdrop n bs).
 
-(* DataType._stream_read: BufferEmptyError when the read returns no data *)
+(* DataType._stream_read: BufferEmptyError when a non-zero read returns no data, DataError when it
+   returns less than requested (a negative size reads everything that is left) *)
 Definition stream_read (n : Z) (bs : bytes) (k : bytes -> bytes -> dres) : dres :=
   let '(d, r) := stream_take n bs in
   match d with
-  | [] => DEmpty r
-  | _ => k d r
+  | [] => if n =? 0 then k [] r else DEmpty r
+  | _ => if zlen d <? n then DErr DataError else k d r
   end.
